@@ -542,6 +542,13 @@ func (m *Manager) DeallocateNAT(privateIP net.IP) error {
 		m.allocationMu.Unlock()
 		return nil // Not allocated
 	}
+	// Log the release while the block is still registered: once it is deleted a
+	// concurrent AllocateNAT may hand the block to another subscriber, and that
+	// assignment must not reach the log before this release does
+	if m.natLogger != nil {
+		duration := time.Since(allocation.AllocatedAt)
+		m.natLogger.LogDeallocation(privateIP, allocation.PublicIP, allocation.PortStart, duration)
+	}
 	delete(m.allocations, privKey)
 	m.allocationMu.Unlock()
 
@@ -558,12 +565,6 @@ func (m *Manager) DeallocateNAT(privateIP net.IP) error {
 		m.pool[allocation.PoolIndex].Subscribers--
 	}
 	m.poolMu.Unlock()
-
-	// Log deallocation event
-	if m.natLogger != nil {
-		duration := time.Since(allocation.AllocatedAt)
-		m.natLogger.LogDeallocation(privateIP, allocation.PublicIP, allocation.PortStart, duration)
-	}
 
 	m.logger.Info("Deallocated NAT for subscriber",
 		zap.String("private_ip", privateIP.String()),
